@@ -13,7 +13,7 @@ import traceback
 from concurrent.futures import ThreadPoolExecutor
 
 from harness import core
-from harness.core import coq_str, coq_list, coq_bool, coq_opt
+from harness.core import coq_list, coq_bool, coq_opt
 from harness.gen import c19_sandbox as S
 from harness.impl import fordrun as F
 from harness.impl import fstrace
@@ -107,6 +107,31 @@ class Ids:
 
     def mid(self, t):
         return self.meta.setdefault(t, len(self.meta) + 1)
+
+
+class StrDict:
+    """every distinct string is defined once (Definition wN : str := s "...") and referred to by
+    name: elaborating a string literal costs far more than elaborating an identifier"""
+
+    def __init__(self):
+        self.names = {}
+
+    def ref(self, x):
+        x = str(x)
+        if x not in self.names:
+            assert core.is_ascii(x) and '"' not in x, repr(x)
+            self.names[x] = f"w{len(self.names)}"
+        return self.names[x]
+
+    def defs(self):
+        return "\n".join(f"Definition {n} : str := {core.coq_str(x)}." for x, n in self.names.items())
+
+
+WORDS = StrDict()
+
+
+def coq_str(x):
+    return WORDS.ref(x)
 
 
 def coq_path(c):
@@ -512,8 +537,9 @@ def exclusion_check(chk, rng, sbs_hint=None):
 
 
 def judge_all(chk, cases, ids, pkgfs):
-    defs = f"Definition pkgfs : list (path * node) := {coq_entries(pkgfs)}.\n" + "\n".join(cases.defs)
-    return chk.coq_judge(IMPORTS, "case", "judge", cases.terms, shard=6, defs=defs), defs
+    listing = f"Definition pkgfs : list (path * node) := {coq_entries(pkgfs)}.\n" + "\n".join(cases.defs)
+    defs = WORDS.defs() + "\n" + listing       # after every term has been rendered
+    return chk.coq_judge(IMPORTS, "case", "judge", cases.terms, shard=8, defs=defs), defs
 
 
 FINDING_REGION = {1: "page-copy-subdir-escape", 2: "page-ordered-subpage-escape"}
@@ -547,8 +573,16 @@ def run(chk):
     chk.props("theories/Props/C19.v", THEOREMS)
     rng = chk.rng
     quick = chk.tier == "quick"
+    timing = chk.extra.setdefault("timing_s", {})
+    timing["build+props"] = round(time.time() - chk.t0, 1)
+    tmark = [time.time()]
+
+    def lap(name):
+        timing[name] = round(time.time() - tmark[0], 1)
+        tmark[0] = time.time()
     ids = Ids()
     cases = Cases()
+    WORDS.names.clear()
     pkgfs = pkg_listing(ids)          # first: the copies of the package's assets get these content ids
 
     def scenarios():
@@ -579,6 +613,7 @@ def run(chk):
             res = run_sc(sc, faults=fault_budget if want_fault else 0)
             if want_fault and res and res.get("faulted"):
                 done_fault += 1
+    lap("placements+faults")
     # (2) command-line override of output_dir
     for o in (["./cli_out", "../cli_outside"] if quick else ["./cli_out", "../cli_outside", "./src", "."]):
         sc = S.gen_scenario(rng, "@SB@", S.placements("@SB@")[0], simple=True)
@@ -590,6 +625,7 @@ def run(chk):
     for key, sc in finding_scenarios("@SB@").items():
         r = run_sc(sc, label="finding")
         replayed[key] = len(cases.terms) - 1
+    lap("cli+findings")
     # (4) untraced child-process runs
     subs = []
     pls = S.placements("@SB@")
@@ -603,7 +639,9 @@ def run(chk):
     # (5) source discovery excludes the output directory
     exclusion_check(chk, rng)
 
+    lap("subprocess+exclusion")
     res, defs = judge_all(chk, cases, ids, pkgfs)
+    lap("coq-judge")
     if res is None:
         return
     chk.traces += len(cases.terms)
